@@ -129,6 +129,16 @@ fn run_snapshot_inner(args: &SnapshotArgs, cli: &Cli) -> crate::Result<i32> {
     // 10. Load history and add entry
     let default_path = state::history_path(&project_root);
     let history_path = args.history_file.as_ref().unwrap_or(&default_path);
+    // Serialise concurrent snapshots: hold the update lock from the load to the save,
+    // otherwise two processes that both load before either saves lose one entry.
+    let _update_lock = if args.dry_run {
+        None
+    } else {
+        let Some(guard) = state::lock_for_update(history_path, "history file") else {
+            return Ok(EXIT_SUCCESS);
+        };
+        Some(guard)
+    };
     let mut history = TrendHistory::load_or_default(history_path);
 
     #[cfg(feature = "verif-hooks")]
